@@ -52,6 +52,7 @@ def check(repo, res, tier):
     l3(repo, res, canon)
     l4a(repo, res, canon, logic)
     l4b(repo, res, canon, logic)
+    l4c(repo, res, canon, logic)
     l6(repo, res, canon)
     l13(repo, res, canon)
     l12(repo, res, canon)
@@ -687,6 +688,82 @@ def l4a(repo, res, canon, logic):
                     'this operation on %s is reached without a non-emptiness guard; the list is '
                     'legitimately empty (e.g. data still being ingested), so IndexError escapes the '
                     'SimPy process and the simulation aborts' % loc, path=p.describe())
+
+
+def l4c(repo, res, canon, logic):
+    """every read `idle[k]` of the reservation table is dominated by `k in idle` (in the function,
+    earlier in the same `and`, by a store of that key on the path, or in every caller): else
+    KeyError for an observation without a reservation -- which is the normal case for every
+    algorithm but the batch one"""
+    res.rule('C05.L4c', 'every read of the reservation table by key is dominated by a membership test of that key '
+                        '(in the function or in every caller) or by a store of that key')
+    IDLE = "Cluster._resources['idle']"
+    cl = repo.cls('Cluster')
+    n_sites = 0
+    for name, f in sorted(cl.methods.items()):
+        fr = Frame(f)
+        sites = []
+        if getattr(f, 'inlined', False):
+            continue          # a helper judged where it was inlined
+        for n in walk_no_nested(f.node):
+            if isinstance(n, ast.Subscript) and isinstance(n.ctx, ast.Load) and canon.c(n.value, fr) == IDLE:
+                sites.append(n)
+        if not sites:
+            continue
+        callers = repo.call_sites({f.qual})
+        paths = cached_paths(f)
+        res.analysed(f, len(paths))
+        for n in sites:
+            n_sites += 1
+            K = canon.c(n.slice, fr)
+            lit = Lit('%s in %s' % (K, IDLE), True)
+            what = '%s read under `%s in idle`' % (short(ast.unparse(n), 50), K)
+            unguarded = None
+            for p in paths:
+                for i, e in enumerate(p.events):
+                    if stmt_contains(e, lambda x: x is n):
+                        must = path_must(logic, p, i, depth=1)
+                        if e.kind == 'test':
+                            must |= _and_prefix_must(logic, e, n)
+                        stored = any(ef.loc == IDLE and ef.kind == 'store' and ef.arg == K
+                                     for x in p.events[:i] for ef in effects_of_event(canon, x))
+                        if lit not in must and not stored:
+                            unguarded = p
+                        break
+            if unguarded is None:
+                res.ok('C05.L4c', f, n, what, 'guard in %s' % f.qual)
+                continue
+            ok_callers = bool(callers) and not any(sp for _, _, sp, _ in callers) and isinstance(n.slice, ast.Name) \
+                and n.slice.id in f.params
+            witness = None
+            if ok_callers:
+                for g, call, spawned, exact in callers:
+                    from ..paths import bind_args as _ba
+                    gfr = Frame(g)
+                    b = _ba(f, call, gfr)
+                    arg = b.get(n.slice.id)
+                    KA = canon.c(arg[0], gfr) if arg else None
+                    glit = Lit('%s in %s' % (KA, IDLE), True)
+                    for p in cached_paths(g):
+                        for i, e in enumerate(p.events):
+                            if stmt_contains(e, lambda x: x is call):
+                                must = path_must(logic, p, i, depth=1)
+                                if e.kind == 'test':
+                                    must |= _and_prefix_must(logic, e, call)
+                                stored = any(ef.loc == IDLE and ef.kind == 'store' and ef.arg == KA
+                                             for x in p.events[:i] for ef in effects_of_event(canon, x))
+                                if glit not in must and not stored:
+                                    ok_callers, witness = False, p
+                                break
+            if ok_callers:
+                res.ok('C05.L4c', f, n, what, 'guard in every caller (%s)' % ', '.join(sorted({g.qual for g, _, _, _ in callers})))
+            else:
+                res.bad('C05.L4c', f, n, '%s without a membership test' % short(ast.unparse(n), 60),
+                        'the reservation table is read for a key that has not been tested to be in it: for an observation '
+                        'without a reservation (every algorithm but the batch one, and every workflow after its release) this '
+                        'is a KeyError that ends the run', path=(witness or unguarded).describe())
+    if n_sites < 3:
+        raise AnalysisError('only %d keyed reads of the reservation table found (C05.L4c anchor moved)' % n_sites)
 
 
 def _and_prefix_must(logic, e, node):
